@@ -428,12 +428,18 @@ impl Query {
         out
     }
 
-    /// `|p0: &A, #[cfg(x)] p1: &mut B|`
-    /// The binding names are irrelevant to matching; a deterministic quarter of the queries each
-    /// uses `_` for every parameter resp. one and the same name for every parameter (the
-    /// `#[cfg(p)] v: &A, #[cfg(not(p))] v: &B` idiom), so that generators which key anything by
-    /// the parameter name, or treat placeholders specially, are exercised.
+    /// `|p0: &A, #[cfg(x)] p1: &mut B|` (unique names: the generated programs use them in the body)
     pub fn params_text(&self) -> String {
+        let ps: Vec<String> = self.params.iter().enumerate().map(|(i, p)| format!("{}p{}: {}", attrs(&p.cfgs), i, p.ty_text())).collect();
+        format!("|{}|", ps.join(", "))
+    }
+
+    /// Engine M only (the closure body there is empty). The binding names are irrelevant to
+    /// matching; a deterministic quarter of the queries each uses `_` for every parameter resp. one
+    /// and the same name for every parameter (the `#[cfg(p)] v: &A, #[cfg(not(p))] v: &B` idiom),
+    /// so that generators which key anything by the parameter name, or treat placeholders
+    /// specially, are exercised.
+    pub fn params_text_varied(&self) -> String {
         let mut h: u32 = 2166136261;
         for p in &self.params {
             for b in p.ty_text().bytes() {
